@@ -37,6 +37,11 @@ CLAIMED = {
             "Quota, distinctness, forbidden items, finishing exactly at the quota and the bookkeeping shown to the policy (nearest-facility "
             "distances, uncovered weights) are TLC monitors over the exhaustive expansion of the real environments (mixed quotas per batch "
             "included) and invariants of the TLA+ models."),
+    "C09": ("model_checking", "6", "Improve.tla (one batch row of TSPkoptEnv / PDPRuinRepairEnv: move operators, masks, best-so-far bookkeeping) TLC exhaustive; every state re-created in the real env; ImproveTrace.tla on long sampler / DACT / NeuOpt / N2S runs",
+            "TLC exhaustively checks the TLA+ machine of the improvement environments (2-opt, k-opt k=3,4, ruin-repair; all initial tours of small n x all "
+            "admitted moves x up to 3 moves, exact integer-distance instances) with C09's clauses as invariants; every explored state is re-created in the "
+            "real environment and compared together with the real move masks; long runs of the environments' samplers and of DACT, NeuOpt and N2S "
+            "(random weights) are validated step by step by ImproveTrace.tla (cycle, precedence, costs, best-so-far, rewards)."),
     "C10": ("model_checking", "6", "exact-arithmetic TLA+ model of the logits pipeline, TLC exhaustive; replay + TLC trace monitors on real process_logits",
             "Logits.tla (mask, temperature, top-k, top-p, normalise on integer weights) is model-checked for all weight vectors x masks x "
             "parameters of a small scope with the clauses of C10 as invariants; every terminal state is replayed into the real "
